@@ -166,6 +166,7 @@ type stats struct {
 	Go          int            `json:"go_stmts"`
 	Locks       int            `json:"locks"`
 	MapRange    int            `json:"map_ranges"`
+	MapAccess   int            `json:"shared_map_accesses"`
 	HTTPClients int            `json:"http_client_literals"`
 	Pools       int            `json:"pool_calls"`
 	Skipped     []string       `json:"skipped"`
@@ -184,6 +185,43 @@ func isPure(e ast.Expr) bool {
 		return isPure(x.X)
 	case *ast.UnaryExpr:
 		return x.Op == token.AND && isPure(x.X)
+	}
+	return false
+}
+
+// sharedMap reports whether e is a map-typed expression naming a struct field or a package-level
+// variable (state that outlives one call and may be shared between requests).
+func sharedMap(info *types.Info, e ast.Expr) bool {
+	tv, ok := info.Types[e]
+	if !ok || tv.Type == nil {
+		return false
+	}
+	if _, ok := tv.Type.Underlying().(*types.Map); !ok {
+		return false
+	}
+	if !isPure(e) {
+		return false
+	}
+	for {
+		if p, ok := e.(*ast.ParenExpr); ok {
+			e = p.X
+			continue
+		}
+		break
+	}
+	switch x := e.(type) {
+	case *ast.SelectorExpr:
+		if s, ok := info.Selections[x]; ok {
+			return s.Kind() == types.FieldVal
+		}
+		// pkg.Var
+		if v, ok := info.Uses[x.Sel].(*types.Var); ok {
+			return v.Parent() == v.Pkg().Scope()
+		}
+	case *ast.Ident:
+		if v, ok := info.Uses[x].(*types.Var); ok && v.Pkg() != nil {
+			return v.Parent() == v.Pkg().Scope()
+		}
 	}
 	return false
 }
@@ -437,6 +475,12 @@ func rewriteFile(fset *token.FileSet, f *ast.File, info *types.Info, rel string,
 			if !ok {
 				return true
 			}
+			if b, isB := obj.(*types.Builtin); isB && b.Name() == "delete" && len(n.Args) == 2 && sharedMap(info, n.Args[0]) {
+				n.Args[0] = &ast.CallExpr{Fun: sel(rtName, "MapW"), Args: []ast.Expr{str(site(n)), n.Args[0]}}
+				st.MapAccess++
+				changed = true
+				return true
+			}
 			fn, ok := obj.(*types.Func)
 			if !ok {
 				return true
@@ -517,6 +561,25 @@ func rewriteFile(fset *token.FileSet, f *ast.File, info *types.Info, rel string,
 			c.Replace(&ast.CallExpr{Fun: sel(rtName, "HTTPClient"), Args: []ast.Expr{str(site(n)), n}})
 			st.HTTPClients++
 			changed = true
+		case *ast.IndexExpr:
+			// m[k] on a map reached through a struct field or a package variable: the access becomes
+			// a scheduling point, and two tasks at accesses of one map, one of them writing, are reported
+			if !sharedMap(info, n.X) {
+				return true
+			}
+			fn := "MapR"
+			switch p := c.Parent().(type) {
+			case *ast.AssignStmt:
+				if c.Name() == "Lhs" {
+					fn = "MapW"
+				}
+			case *ast.IncDecStmt:
+				_ = p
+				fn = "MapW"
+			}
+			n.X = &ast.CallExpr{Fun: sel(rtName, fn), Args: []ast.Expr{str(site(n)), n.X}}
+			st.MapAccess++
+			changed = true
 		case *ast.RangeStmt:
 			tv, ok := info.Types[n.X]
 			if !ok {
@@ -532,6 +595,10 @@ func rewriteFile(fset *token.FileSet, f *ast.File, info *types.Info, rel string,
 			if !orderedKey(mt.Key()) {
 				st.Skipped = append(st.Skipped, "maprange "+site(n))
 				return true
+			}
+			if sharedMap(info, n.X) {
+				n.X = &ast.CallExpr{Fun: sel(rtName, "MapR"), Args: []ast.Expr{str(site(n)), n.X}}
+				st.MapAccess++
 			}
 			n.X = &ast.CallExpr{Fun: sel(rtName, "Range"), Args: []ast.Expr{str(site(n)), n.X}}
 			st.MapRange++
